@@ -143,10 +143,12 @@ package tracing
 // under their own contracts above).
 //@ func NewTracer
 //@   assumed
+//@   flag countcalls
 //@   flag emits opaque
 //@   flag allocs
 //@   ensures tag(result) != 0
 //@ func NewRelay
 //@   assumed
+//@   flag countcalls
 //@   flag emits opaque
 //@   flag allocs
